@@ -775,7 +775,7 @@ def generate(units_dir, unit_names, outdir, update_mirror=False):
         p = os.path.join(units_dir, u + ".rs")
         lines = process_unit(p, meta, update_mirror)
         open(os.path.join(outdir, u + ".rs"), "w").write("\n".join(lines))
-    root = ["#![feature(panic_internals)]", "#![feature(sized_hierarchy)]", "#![allow(internal_features)]", "#![allow(unused_imports, unused_variables, unused_mut, unused_parens, unused_assignments, dead_code, non_snake_case, non_upper_case_globals, unused_braces, unreachable_code)]",
+    root = ["#![feature(panic_internals)]", "#![feature(sized_hierarchy)]", "#![feature(allocator_api)]", "#![allow(internal_features)]", "#![allow(unused_imports, unused_variables, unused_mut, unused_parens, unused_assignments, dead_code, non_snake_case, non_upper_case_globals, unused_braces, unreachable_code)]",
             "use vstd::prelude::*;"]
     for u in unit_names:
         root.append("pub mod %s;" % u)
